@@ -2,21 +2,24 @@
 (* Bounded document families for WordDoc and case emission.                 *)
 EXTENDS WordDoc, Json
 
-CONSTANTS Fam,      \* which family Docs ranges over: "A" | "B" | "C" | "D"
+CONSTANTS Fam,      \* which family Docs ranges over: "A" | "B" | "C" | "D" | "S"
           MaxBlocks,\* family A: body length bound
           MaxCh,    \* family B: children per paragraph
           MaxAt,    \* family B: atoms per child
           MaxDim    \* family C: table rows / cols bound
 
 R(w, a) == [w |-> w, a |-> a]
-P(ch)            == [k |-> "P",   ch |-> ch, lvl |-> 0, how |-> "", num |-> "", tb |-> NoTbl]
-H(l, how)        == [k |-> "H",   ch |-> <<R("r", <<"t">>)>>, lvl |-> l, how |-> how, num |-> "", tb |-> NoTbl]
-LI(l, num)       == [k |-> "LI",  ch |-> <<R("r", <<"t">>)>>, lvl |-> l, how |-> "", num |-> num, tb |-> NoTbl]
-TR(r, c, hm, vm, mp, rc) == [k |-> "TBL", ch |-> <<>>, lvl |-> 0, how |-> "", num |-> "",
+P(ch)            == [k |-> "P",   ch |-> ch, lvl |-> 0, how |-> "", num |-> "", sty |-> 0, tb |-> NoTbl]
+H(l, how)        == [k |-> "H",   ch |-> <<R("r", <<"t">>)>>, lvl |-> l, how |-> how, num |-> "", sty |-> 0, tb |-> NoTbl]
+LI(l, num)       == [k |-> "LI",  ch |-> <<R("r", <<"t">>)>>, lvl |-> l, how |-> "", num |-> num, sty |-> 0, tb |-> NoTbl]
+TR(r, c, hm, vm, mp, rc) == [k |-> "TBL", ch |-> <<>>, lvl |-> 0, how |-> "", num |-> "", sty |-> 0,
                              tb |-> [rows |-> r, cols |-> c, hm |-> hm, vm |-> vm, mp |-> mp, rc |-> rc]]
 T(r, c, hm, vm, mp) == TR(r, c, hm, vm, mp, <<>>)
 
-D(f, body, h, g) == [fmt |-> f, body |-> body, hdr |-> h, ftr |-> g]
+D(f, body, h, g) == [fmt |-> f, body |-> body, hdr |-> h, ftr |-> g, sheet |-> <<>>]
+\* a paragraph styled with style s of the sheet (ODT: a text:h of outline level l)
+StyP(s, l)       == [k |-> "S",   ch |-> <<R("r", <<"t">>)>>, lvl |-> l, how |-> "", num |-> "", sty |-> s, tb |-> NoTbl]
+St(decl, l, b)   == [decl |-> decl, lvl |-> l, based |-> b]
 
 Fmts == {"docx", "odt"}
 
@@ -59,7 +62,13 @@ TablesC(md) == UNION {{TR(t.tb.rows, t.tb.cols, t.tb.hm, t.tb.vm, mp, rc) :
                           mp \in SmallSeqs(ToSet(Anchors(t.tb)), 1), rc \in SmallSeqs(ToSet(Anchors(t.tb)), 1)} :
                       t \in Skeletons(md)}
 Plain == P(<<R("r", <<"t">>)>>)
-DocsC(md) == LET tc == TablesC(md) IN
+\* every 2x3 table with up to two horizontal and two vertical merges (two merges side by
+\* side need three columns)
+Wide == {t \in {TR(2, 3, hm, vm, <<>>, <<>>) : hm \in SmallSeqs(PosSet(2, 3), 2), vm \in SmallSeqs(PosSet(2, 3), 2)} :
+           /\ TblOK(t.tb)
+           /\ \A s \in {t.tb.hm, t.tb.vm} :
+                 Len(s) = 2 => (s[1][1] < s[2][1] \/ (s[1][1] = s[2][1] /\ s[1][2] < s[2][2]))}
+DocsC(md) == LET tc == TablesC(md) \cup Wide IN
              {D(f, <<t>>, 0, 0) : f \in Fmts, t \in tc}
              \cup {D(f, <<Plain, t, Plain>>, 0, 0) : f \in Fmts, t \in {x \in tc : x.tb.rows = md /\ x.tb.cols = md}}
 
@@ -76,6 +85,22 @@ MCDocs == CASE Fam = "C" -> DocsC(MaxDim)
             [] Fam = "D" -> DocsD(0)
             [] OTHER -> {}
 
+\* ---- family S: style sheets ------------------------------------------------
+\* The paragraph uses style 1; style i is based on style i + 1 (a chain of n <= MaxBlocks
+\* styles); the last style is based on nothing / the default style / an undefined style /
+\* one of the chain's styles (a cycle).  Every style independently declares nothing or a
+\* heading level in one of the ways of the format, so the declaring style sits at every
+\* position of the chain (first, middle, root) and "nearest wins" is distinguishable:
+\* DOCX levels builtin 2, nameL 3, nameU 4, outline 1.  ODT: the text:h has level 3 and the
+\* declaring styles agree with it.
+DeclLvl(f, dc) == IF f = "odt" THEN 3
+                  ELSE CASE dc = "builtin" -> 2 [] dc = "nameL" -> 3 [] dc = "nameU" -> 4 [] OTHER -> 1
+SheetDecls(f) == IF f = "docx" THEN {"none", "builtin", "nameL", "nameU", "outline"}
+                 ELSE {"none", "builtin", "bare", "outline"}
+ChainSheet(f, dcs, last) == [i \in 1..Len(dcs) |->
+                               St(dcs[i], DeclLvl(f, dcs[i]), IF i < Len(dcs) THEN i + 1 ELSE last)]
+SDoc(f, sh) == [fmt |-> f, body |-> <<StyP(1, 3), Plain>>, hdr |-> 0, ftr |-> 0, sheet |-> sh]
+
 \* Init written with quantifiers: TLC enumerates the function sets directly instead of
 \* building (sorting, de-duplicating) one big set of documents first
 MCInit ==
@@ -84,12 +109,16 @@ MCInit ==
                              ListOK(b) /\ doc = D(f, b, 0, 0)
          [] Fam = "B" -> \E f \in Fmts : \E n \in 1..MaxCh : \E ch \in SeqN(Children(f, MaxAt), n) :
                              NTok(P(ch)) >= 1 /\ doc = D(f, <<P(ch)>>, 0, 0)
+         [] Fam = "S" -> \E f \in Fmts : \E n \in 1..MaxBlocks : \E dcs \in SeqN(SheetDecls(f), n) :
+                           \E last \in {-2, -1, 0} \cup (1..n) :
+                             /\ SheetOK(f, ChainSheet(f, dcs, last))
+                             /\ doc = SDoc(f, ChainSheet(f, dcs, last))
          [] OTHER -> doc \in MCDocs
 
 \* ---- case emission ---------------------------------------------------------
 Grids(body) == [i \in 1..Len(body) |-> IF body[i].k = "TBL" THEN Grid(body[i].tb) ELSE <<>>]
 
-Case == [fam |-> Fam, fmt |-> doc.fmt, body |-> doc.body, hdr |-> doc.hdr, ftr |-> doc.ftr,
+Case == [fam |-> Fam, fmt |-> doc.fmt, body |-> doc.body, hdr |-> doc.hdr, ftr |-> doc.ftr, sheet |-> doc.sheet,
          bases |-> Bases(doc.body), grids |-> Grids(doc.body),
          ntok |-> Len(AllIds(out)), items |-> out,
          hdrtok |-> HdrTok, ftrtok |-> FtrTok]
